@@ -38,6 +38,7 @@ fn map_rust(f: &MapFn, t: &Ty) -> String {
         MapFn::ToMax => "|x: i64| dfir_rs::lattices::Max::new(x)".into(),
         MapFn::FromMax => "|x: dfir_rs::lattices::Max<i64>| x.into_reveal()".into(),
         MapFn::ToSet => "|x: i64| dfir_rs::lattices::set_union::SetUnionHashSet::<i64>::new_from([x])".into(),
+        MapFn::KeyMax => format!("|(k, v): {PT}| (k, dfir_rs::lattices::Max::new(v))"),
         MapFn::ToShape => "|x: i64| match x.rem_euclid(3) { 0 => gd::Sh::A(x), 1 => gd::Sh::B(x, x + 1), _ => gd::Sh::C { k: x, v: x * 2 } }".into(),
     }
 }
@@ -301,6 +302,15 @@ fn op_text(p: &Prog, a: &Analysis, i: usize) -> String {
             }
         }
         Op::DemuxEnum => "demux_enum::<gd::Sh>()".into(),
+        Op::LatticeFoldBatch => format!("_lattice_fold_batch::<{}>()", in_ty(0).rust()),
+        Op::LatticeJoinFused { pers } => {
+            let t = "dfir_rs::lattices::Max<i64>";
+            let ps = pers_rust(pers);
+            let generics = if pers.is_empty() { format!("::<{t}, {t}>") } else { format!("{}, {t}, {t}>", ps.trim_end_matches('>')) };
+            format!(
+                "_lattice_join_fused_join{generics}() -> map(|m| {{ let dfir_rs::lattices::collections::SingletonMap(k, p) = m.into_reveal(); let (a, b) = p.into_reveal(); (k, (a.into_reveal(), b.into_reveal())) }}) -> identity::<(i64, (i64, i64))>()"
+            )
+        }
         Op::Initialize => "initialize()".into(),
         Op::ForEach { sink } => format!(
             "for_each(|x: {}| lg{sink}.borrow_mut().push((context.current_tick().0, {sink}usize, gd::tv(&x))))",
@@ -584,7 +594,7 @@ pub fn main_loop(units: &[(u64, fn(&Script) -> RunOut)]) {
     let path = std::env::args().nth(1).expect("input file");
     let txt = std::fs::read_to_string(&path).expect("read input");
     let all: J = serde_json::from_str(&txt).expect("parse input");
-    let budget_ms: u64 = std::env::var("GD_RUN_TIMEOUT_MS").ok().and_then(|s| s.parse().ok()).unwrap_or(10_000);
+    let budget_ms: u64 = std::env::var("GD_RUN_TIMEOUT_MS").ok().and_then(|s| s.parse().ok()).unwrap_or(60_000);
     let mut hangs = 0;
     let stdout = std::io::stdout();
     for &(id, f) in units {
